@@ -74,6 +74,9 @@ pub enum Backoff {
     /// a stateful policy: its 1st, 3rd, 5th ... evaluation answers 30 ms, the others 5 ms. The
     /// layer must ask once per retry and sleep what it was told
     Stateful,
+    /// no backoff setter is called at all: the documented default (100 ms x 2^k) applies, and
+    /// the other settings (predicate, budget, attempt limit) must not depend on one being made
+    Unset,
 }
 
 impl Backoff {
@@ -94,6 +97,7 @@ impl Backoff {
             Backoff::Gentle => ((1.1f64.powi(a as i32)).min(60_000.0) - 1e-9).ceil() as u64,
             Backoff::Stateful => if k % 2 == 1 { 30 } else { 5 },
             Backoff::Fn => (a as u64 + 1) * 7,
+            Backoff::Unset => 100 * 2u64.pow(a),
         }
     }
 }
@@ -140,7 +144,7 @@ type Svc = tower_resilience_retry::Retry<GatedInner, Req, InnerErr>;
 pub fn build(cfg: &Cfg, shared: trv_core::inner::Shared) -> (Svc, Option<Arc<RecBudget>>) {
     // every configuration with an even fixed attempt limit starts from the aggressive() preset
     // (5 attempts, exponential backoff from 50 ms) and overrides both settings
-    let mut b = if !cfg.per_request && cfg.max_attempts % 2 == 0 { RetryLayer::<Req, InnerErr>::aggressive() } else { RetryLayer::<Req, InnerErr>::builder() };
+    let mut b = if !cfg.per_request && cfg.max_attempts % 2 == 0 && !matches!(cfg.backoff, Backoff::Unset) { RetryLayer::<Req, InnerErr>::aggressive() } else { RetryLayer::<Req, InnerErr>::builder() };
     if cfg.per_request {
         // the request's key carries its own attempt limit
         b = b.max_attempts_fn(|r: &Req| r.key as usize);
@@ -162,6 +166,7 @@ pub fn build(cfg: &Cfg, shared: trv_core::inner::Shared) -> (Svc, Option<Arc<Rec
             b.backoff(FnInterval::new(move |_a: usize| if evals.fetch_add(1, Ordering::SeqCst) % 2 == 0 { Duration::from_millis(30) } else { Duration::from_millis(5) }))
         }
         Backoff::Gentle => b.backoff(ExponentialBackoff::new(Duration::from_millis(1)).multiplier(1.1).max_interval(Duration::from_secs(60))),
+        Backoff::Unset => b,
         Backoff::CapThenMult => b.backoff(ExponentialBackoff::new(Duration::from_millis(10)).max_interval(Duration::from_secs(1)).multiplier(3.0)),
     };
     if cfg.predicate {
@@ -249,7 +254,7 @@ pub fn grid(tier: Tier) -> Vec<Cfg> {
     let mut v = vec![];
     for max_attempts in 0..=tier.pick(3usize, 4) {
         for per_request in [false, true] {
-            for backoff in [Backoff::Zero, Backoff::Fixed, Backoff::Exponential, Backoff::Capped, Backoff::Fn, Backoff::SubMs, Backoff::Fractional, Backoff::Seconds, Backoff::MultThenCap, Backoff::CapThenMult, Backoff::Stateful] {
+            for backoff in [Backoff::Zero, Backoff::Fixed, Backoff::Exponential, Backoff::Capped, Backoff::Fn, Backoff::SubMs, Backoff::Fractional, Backoff::Seconds, Backoff::MultThenCap, Backoff::CapThenMult, Backoff::Stateful, Backoff::Unset] {
                 for predicate in [false, true] {
                     for budget in [BudgetKind::None, BudgetKind::Token(0), BudgetKind::Token(1), BudgetKind::Token(2), BudgetKind::Aimd, BudgetKind::AimdCost3] {
                         v.push(Cfg { max_attempts, per_request, backoff, predicate, budget });
